@@ -641,3 +641,48 @@ Proof.
     + intro H; invp H. split; auto. constructor.
   - intro H; invp H. split; auto. constructor.
 Qed.
+
+(* ---- sort_nonce sorts; Cap drops the highest nonces ----------------------- *)
+From Coq Require Import Sorted.
+
+Lemma ins_sorted x l :
+  StronglySorted (fun a b => t_nonce a <= t_nonce b) l ->
+  StronglySorted (fun a b => t_nonce a <= t_nonce b) (ins by_nonce x l).
+Proof.
+  induction l as [|y r IH]; intro S; cbn.
+  - constructor; constructor.
+  - unfold by_nonce at 1. destruct (N.leb (t_nonce x) (t_nonce y)) eqn:E.
+    + constructor; auto. inversion S; subst. constructor; [lia|].
+      eapply Forall_impl; [|eauto]. cbn. intros. lia.
+    + inversion S; subst. constructor; auto.
+      assert (P : Permutation (ins by_nonce x r) (x :: r)) by apply ins_perm.
+      apply (Permutation_Forall (Permutation_sym P)). constructor; auto. lia.
+Qed.
+Lemma sort_nonce_sorted l : StronglySorted (fun a b => t_nonce a <= t_nonce b) (sort_nonce l).
+Proof. unfold sort_nonce. induction l; cbn; [constructor|apply ins_sorted; auto]. Qed.
+
+Lemma sorted_split k (s : list tx) :
+  StronglySorted (fun a b => t_nonce a <= t_nonce b) s ->
+  forall x y, In x (firstn k s) -> In y (skipn k s) -> t_nonce x <= t_nonce y.
+Proof.
+  revert k. induction s as [|a r IH]; intros k S x y Hx Hy.
+  - destruct k; cbn in *; tauto.
+  - destruct k; cbn in *; [tauto|]. inversion S; subst. destruct Hx as [->|Hx].
+    + rewrite Forall_forall in H2. apply H2. rewrite <- (firstn_skipn k r). apply in_or_app. auto.
+    + eapply IH; eauto.
+Qed.
+
+Lemma l_cap_order l th d l' :
+  uniq (litems l) -> l_cap l th = (d, l') ->
+  forall x y, In x (litems l') -> In y d -> t_nonce x < t_nonce y.
+Proof.
+  intros U C. pose proof (l_cap_spec _ _ _ _ U C) as (_ & M & D & _).
+  unfold l_cap in C. destruct (sm_cap (txs l) th) as [d0 m] eqn:E. invp C.
+  unfold sm_cap in E. destruct (Nat.leb (length (items (txs l))) th); invp E; [intros x y _ []|].
+  intros x y Hx Hy. unfold litems in Hx. cbn in Hx. apply in_rev in Hy.
+  pose proof (sorted_split th _ (sort_nonce_sorted (items (txs l))) x y Hx Hy) as Le.
+  destruct (N.eq_dec (t_nonce x) (t_nonce y)) as [En|En]; [|lia]. exfalso.
+  assert (x = y).
+  { eapply (uniq_inj (litems l)); eauto; apply M; [left|right]; auto. apply -> in_rev. auto. }
+  subst. eapply D; eauto. apply -> in_rev. auto.
+Qed.
